@@ -30,6 +30,33 @@ type SolveResult struct {
 	Hyps    []*Term `json:"-"`
 }
 
+// hasOpenQuo reports whether some go.quo / go.rem application mentions a bound variable.
+func hasOpenQuo(ts []*Term) bool {
+	seen := map[*Term]bool{}
+	var walk func(t *Term) bool
+	walk = func(t *Term) bool {
+		if seen[t] {
+			return false
+		}
+		seen[t] = true
+		if t.Kind == KUF && (t.Op == "go.quo" || t.Op == "go.rem") && len(t.open) > 0 {
+			return true
+		}
+		for _, a := range t.Args {
+			if walk(a) {
+				return true
+			}
+		}
+		return false
+	}
+	for _, t := range ts {
+		if walk(t) {
+			return true
+		}
+	}
+	return false
+}
+
 // buildQuery prints the SMT-LIB text of hyps ∧ ¬goal (or just hyps when expectSat).
 func buildQuery(hyps []*Term, goal *Term, expectSat bool, axioms []axiomTerm, wantModel bool) string {
 	all := append([]*Term(nil), hyps...)
@@ -38,6 +65,16 @@ func buildQuery(hyps []*Term, goal *Term, expectSat bool, axioms []axiomTerm, wa
 	}
 	ax := relevantAxioms(axioms, all)
 	all = append(ax, all...)
+	if hasOpenQuo(all) {
+		// quotients by a non-constant divisor under a binder carry no facts of their own (see divFacts): give the
+		// solver the definition of Go's truncated division for positive divisors, triggered on the quotient term
+		a, bb := mkBVar("quo!a", SInt), mkBVar("quo!b", SInt)
+		q, r, z := mkUF("go.quo", SInt, a, bb), mkUF("go.rem", SInt, a, bb), mkInt(0)
+		body := Implies(Gt(bb, z), And(Eq(a, Add(Mul(bb, q), r)),
+			Implies(Ge(a, z), And(Le(z, r), Lt(r, bb), Ge(q, z), Le(q, a))),
+			Implies(Lt(a, z), And(Lt(Neg(bb), r), Le(r, z), Le(q, z)))))
+		all = append([]*Term{quant("forall", []*Term{a, bb}, body, [][]*Term{{q}})}, all...)
+	}
 	vars, ufs, sorts := collectDecls(all)
 	var b strings.Builder
 	b.WriteString("(set-option :produce-models true)\n(set-logic ALL)\n")
